@@ -396,9 +396,9 @@ theorem emphStep_spec_b (s : Str) (sb : Option Nat) (st : EState) (curr : Nat) (
       simp only
       split
       · exact ⟨_, _, _, _, rfl, StepRel.erased _ _ _ closer hc,
-          Or.inl ⟨ch, rfl, h, rfl, Nat.le_refl _, Or.inl rfl⟩⟩
+          Or.inl ⟨ch, hh, h, rfl, Nat.le_refl _, Or.inl rfl⟩⟩
       · exact ⟨_, _, _, _, rfl, StepRel.skipped _ _ _ closer hc,
-          Or.inl ⟨ch, rfl, h, rfl, Nat.le_succ _, Or.inr rfl⟩⟩
+          Or.inl ⟨ch, hh, h, rfl, Nat.le_succ _, Or.inr rfl⟩⟩
     · rw [h]
       simp only
       rw [hd]
@@ -421,7 +421,7 @@ theorem emphStep_spec_b (s : Str) (sb : Option Nat) (st : EState) (curr : Nat) (
           BRel sb st.ds st.bottoms (A.length + 1 + B.length) closer (A ++ X)
             (st.bottoms.map (remap A.length sb)) k := by
         intro X k hk
-        refine Or.inr ⟨ch, A.length, rfl, h, hlt, rfl, ?_, hk⟩
+        refine Or.inr ⟨ch, A.length, hh, h, hlt, rfl, ?_, hk⟩
         rw [hds]; simp
       rw [hds, take_drop_two]
       have hrel := StepRel.matched (s := s) A B C d closer st.ms dch hde hdo he hcl hcb hdch
